@@ -162,7 +162,10 @@ extern "C" void verif_harness() {
     double th = sympos("e00"); int square = L > 1 ? __sym_choose("actsOnTwoSites", 0, 1) : 0;
     VV E(L, vector<double>(n)); for (int i = 0; i < L; i++) for (int j = 0; j < n; j++) E[i][j] = (i == 0 && j == 0) ? th : ((i == 1 && j == 0 && square) ? th * th : sympos("e" + to_string(i) + to_string(j)));
     vector<bool> isBp(L, false); vector<size_t> bps; for (int i = 1; i < L; i++) if (__sym_choose(("break" + to_string(i)).c_str(), 0, 1)) { isBp[i] = true; bps.push_back(i); }
-    auto al = make_shared<Alpha>(n); auto tr = make_shared<Trans>(al, P, eq); auto em = make_shared<Emis>(al, E, square != 0);
+    // history: optionally the derivatives are first queried at another value of the parameter, which is then updated to th (the answers must be those of the current value)
+    int stale = (L == 1 || (isBp[1] && !square)) ? __sym_choose("queryThenUpdate", 0, 1) : 0; double th0 = th; VV E0 = E;   /* (one site, or two sites separated by a break point: the other shapes leave the solver's reach with the extra round, measured) */
+    if (stale) { th0 = 0.625; SYM_ASSUME(!(th0 == th));   /* a concrete earlier value keeps the first round of queries out of the solver */ E0[0][0] = th0; if (square && L > 1) E0[1][0] = th0 * th0; }
+    auto al = make_shared<Alpha>(n); auto tr = make_shared<Trans>(al, P, eq); auto em = make_shared<Emis>(al, E0, square != 0);
     double tot; VV acc; enumerate(P, eq, E, isBp, tot, acc);
 #ifdef SYM_REPLAY
     // native replay of a counterexample: derivatives of the enumeration polynomial by fourth-order finite differences (compared with the replay tolerance)
@@ -174,6 +177,7 @@ extern "C" void verif_harness() {
     double wantD1 = d1 / tot, wantD2 = d2 / tot - (d1 / tot) * (d1 / tot);      // derivatives of log(tot)
     int algo = __sym_choose("algorithm", 0, 1); int order = __sym_choose("secondFirst", 0, 1);
     unique_ptr<HmmLikelihood> lik; if (algo == 0) { auto r = new RescaledHmmLikelihood(al, tr, em, ""); r->setBreakPoints(bps); lik.reset(r); } else { auto g = new LogsumHmmLikelihood(al, tr, em, ""); g->setBreakPoints(bps); lik.reset(g); }
+    if (stale) { (void)lik->getFirstOrderDerivative("e00"); (void)lik->getSecondOrderDerivative("e00"); ParameterList upd; upd.addParameter(Parameter("e00", th)); lik->setParameters(upd); }
     double g2a = 0; if (order) g2a = lik->getSecondOrderDerivative("e00");
     double g1 = lik->getFirstOrderDerivative("e00"), g2 = lik->getSecondOrderDerivative("e00");
     SYM_ASSERT_EQ(g1, -wantD1, "first derivative of the (minus) log-likelihood differs from the derivative of the path-enumeration polynomial");
